@@ -74,8 +74,28 @@ class RA: ...
 class RB: ...
 
 
+def fresh(s):
+    """an equal but DISTINCT str object (for len >= 2; CPython shares 0/1-character strings): production callers
+    parse names from separate JSON documents, so no two registry calls share str objects"""
+    return (s + "\0")[:-1] if isinstance(s, str) else s
+
+
+class _FreshResources:
+    """resource number i as a FRESH registry.Resource (fresh name / namespace strings too) on every access, the way
+    koreo.cache builds `registry.Resource(resource_type=cls, name=key)` anew for every call: the registry must
+    compare resources by equality, never by identity"""
+
+    def __init__(self, registry):
+        self.registry = registry
+
+    def __getitem__(self, i):
+        return self.registry.Resource(resource_type=(RA if i % 2 == 0 else RB), name=fresh(f"res-{i // 2}"),
+                                      namespace=(fresh("ns-x") if i == 3 else None))
+
+
 class Runner:
-    """Applies operations to the real koreo.registry and canonicalises what it sees."""
+    """Applies operations to the real koreo.registry and canonicalises what it sees.  Every registry call gets
+    freshly built Resource tuples and strings (no Python object is reused between calls)."""
 
     def __init__(self):
         from koreo import registry
@@ -84,9 +104,8 @@ class Runner:
         self.clock = _Clock()
         self._saved_time = registry.time
         registry.time = self.clock
-        self.res = [registry.Resource(resource_type=(RA if i % 2 == 0 else RB), name=f"r{i // 2}",
-                                      namespace=("ns" if i == 3 else None)) for i in range(8)]
-        self.idx = {r: i for i, r in enumerate(self.res)}
+        self.res = _FreshResources(registry)
+        self.idx = {self.res[i]: i for i in range(8)}      # looked up by EQUALITY (Resource is a NamedTuple)
         self.hung = False
         self.pool = {}          # the caller's long-lived collections passed to subscribe_only_to
         self.heap = []          # every queue object ever seen, in creation order
